@@ -5,6 +5,8 @@ WORLDS = {
     "w1": {"pkg": "cmd/broker", "harness": "w1", "weave": MAIN_WEAVE},
     "wm": {"pkg": "internal/mcpserver", "harness": "wm", "weave": MAIN_WEAVE},
     "w2": {"pkg": "pkg/broker", "harness": "w2", "weave": MAIN_WEAVE},
+    "w10": {"pkg": "pkg/cache", "harness": "w10", "weave": ["./pkg/cache/"]},
+    "w11": {"pkg": "pkg/broker", "harness": "w11", "weave": MAIN_WEAVE},
 }
 
 def P(world, **kw):
@@ -42,6 +44,12 @@ PROPS = {
     "C15": P("w2", quick_runs=3000, thorough_runs=200000, quick_budget_s=100, thorough_budget_s=1200, required_probes=["c15.failover", "c15.probe"]),
     "C16": P("w2", quick_runs=3000, thorough_runs=200000, quick_budget_s=100, thorough_budget_s=1200, required_probes=["c16.fetch-judged"]),
     "C43": P("w2", quick_runs=3000, thorough_runs=200000, quick_budget_s=100, thorough_budget_s=1200, required_probes=["c43.overstay-judged"]),
+    "C09": P("w10", quick_runs=6000, thorough_runs=400000, quick_budget_s=60, thorough_budget_s=900, required_probes=["c09.kept-slice", "c09.porcupine-ok"],
+             technique="deterministic simulation (seeded interleavings of cache users at lock granularity) + structural invariants after every operation + porcupine linearizability check of each recorded history"),
+    "C10": P("w11", quick_runs=6000, thorough_runs=400000, quick_budget_s=60, thorough_budget_s=900, panics_are_verdicts=True, required_probes=["c10.roundtrip-judged"],
+             level_text="generated request frames (every API key the codec knows, every version, generated bodies) and header-targeted mutations are streamed to the real connection loop over simulated connections that fragment, end and reset at arbitrary bytes, several connections at once; a panic in any server task is the violation. The deciding dimension is the generated bytes; the simulator contributes the stream (fragmentation/EOF/reset) and the observation 'one connection's frame kills the node'"),
+    "C26": P("w11", quick_runs=8000, thorough_runs=500000, quick_budget_s=60, thorough_budget_s=900, panics_are_verdicts=True, required_probes=["c26.complete-header", "c26.headerless", "c26.truncated-header"],
+             level_text="generated PROXY v1/v2 headers (all families/commands, TLVs), header look-alikes and headerless streams, delivered in arbitrary fragments and cut at arbitrary bytes; mostly input generation, the simulator contributes the stream"),
 }
 
 NA = {
